@@ -8,6 +8,7 @@ pub mod invariance;
 pub mod oracles;
 pub mod probe;
 pub mod props;
+pub mod pure;
 pub mod rec;
 pub mod reference;
 pub mod scalar;
@@ -53,6 +54,11 @@ pub fn main_with(entries: Vec<entry::Entry>, cat: mc_desc::Catalogue) -> i32 {
         "C10" => props::run_c10(&e),
         "C11" => props::run_c11(&e),
         "C12" => props::run_c12(&e),
+        "C05" => pure::run_c05(tier),
+        "C13" => pure::run_c13(tier),
+        "C17" => pure::run_c17(tier),
+        "C18" => pure::run_c18(tier),
+        "C19" => pure::run_c19(tier),
         other => {
             eprintln!("unknown property {other}");
             2
